@@ -12,8 +12,8 @@ import netgen
 from exact import spec_solution
 
 R_VALUES = [1.0, 2.0, 5.0, 10.0, 47.0, 100.0, 0.5]
-C_VALUES = [1e-3, 2.2e-3, 0.01, 0.5, 1.0, 4.7e-4]
-L_VALUES = [1e-2, 0.1, 0.5, 1.0, 2.0, 3.3e-2]
+C_VALUES = [1e-3, 2.2e-3, 0.01, 0.5, 1.0, 4.7e-4, 1e-9, 4.7e-10]
+L_VALUES = [1e-2, 0.1, 0.5, 1.0, 2.0, 3.3e-2, 1e-9]
 
 # names chosen so that sorted order interleaves kinds: capacitors/inductors before and after sources, 'A' < 'Is' < 'L1' < 'Vs'
 NAMES = {'R': ['R1', 'R2', 'Ra', 'r', 'R10', 'Rz'], 'C': ['C1', 'C2', 'Ca', 'Cb', 'c', 'Z'], 'L': ['L1', 'L2', 'A', 'La', 'l1', 'W'],
